@@ -174,6 +174,9 @@ def process_level(ctx, cfg, only=None):
             reports = json.load(fh)
     except Exception:
         reports = []
+    if os.environ.get("VERIF_E2E_DUMP") and any(o != "ok" for o in obs):
+        with open(os.environ["VERIF_E2E_DUMP"], "w") as fh:      # diagnosis aid: the driver's full report of a failing run
+            json.dump(reports, fh, indent=1)
     if len(obs) != len(scs):
         ctx.problems.append(("build", "the process-level driver did not finish: %s" % (r.stderr[-1500:]), None))
         return
